@@ -119,6 +119,11 @@ def check_search(s, t, soup):
             q = str(n)
             if soup.count(q) != expected(q):
                 out.append(('full-text-query', 'count(%r) in %r is %d, expected %d' % (q, s, soup.count(q), expected(q))))
+        if isinstance(n.expr, (TexCmd, TexEnv)) and ('{' in str(n) or '[' in str(n)) and not str(n).startswith('\\end{') \
+                and len(str(n)) < 200:
+            q = str(n)          # the whole text of any node: an \\item with its body, an environment, a group, a math region
+            if soup.count(q) != expected(q):
+                out.append(('full-text-query', 'count(%r) in %r is %d, expected %d' % (q, s, soup.count(q), expected(q))))
         if isinstance(n.expr, TexNamedEnv):
             q = n.expr.begin + str(n.expr.args)
             if soup.count(q) != expected(q):
@@ -154,6 +159,15 @@ def check_views(s, soup):
         for c in got:
             if isinstance(c, TexNode) and c.parent is not n:
                 out.append(('parent', 'parent of %r reached from %r in %r' % (str(c), str(n), s)))
+        for i in range(-len(got), len(got)):          # indexing: same elements as contents, reached from this node
+            c = n[i]
+            if isinstance(c, TexNode) and c.parent is not n:
+                out.append(('parent', 'parent of %r reached by indexing %r[%d] in %r is %r' % (str(c), str(n), i, s, c.parent)))
+                break
+        for c in n:                                    # iteration
+            if isinstance(c, TexNode) and c.parent is not n:
+                out.append(('parent', 'parent of %r reached by iterating %r in %r' % (str(c), str(n), s)))
+                break
         desc = list(n.descendants)
         closure = []
 
